@@ -12,6 +12,8 @@
 (*   [k |-> "elem" | "start" | "end" | "full" | "rawtag" | "write_raw" |   *)
 (*          "start_unknown_dep" | "flush" | "into_inner",                   *)
 (*    id, ty, val, width (0..8), unknown (BOOLEAN), kids (for "full")]      *)
+(* The size options of a call (width, unknown) say how a tag is *started*: an "end" ignores them.  The deprecated     *)
+(* unknown-size call is the option-based call (for every variant of the tag).                                         *)
 (* `val` is the tag's value as the reader reports it (8-byte words for     *)
 (* numbers, bytes for strings / binary).                                    *)
 (* Every rejected call leaves the state unchanged (property C19); the      *)
@@ -58,6 +60,7 @@ WriteOp(sch, w, op) ==
   LET ty == TypeOf(sch, op.id) IN
   IF op.k = "end" THEN EndTag(w, op.id)
   ELSE IF op.unknown /\ ty # "master" THEN Res("size", w)                           \* unknown size only for masters
+  ELSE IF op.unknown /\ op.k = "full" THEN Res("size", w)                            \* ... and only when one is started: a Full item cannot be of unknown size
   ELSE IF ty # "raw" /\ ~PathAllows(sch, op.id, Chain(w)) THEN Res("unexpected_tag", w)   \* C11: also for unknown-size starts
   ELSE IF ty = "master" THEN
     IF op.unknown THEN
@@ -99,7 +102,7 @@ WriteCall(sch, w, op) ==
     WriteOp(sch, w, [op EXCEPT !.k = "start", !.unknown = TRUE])
   ELSE LET r == WriteOp(sch, w, op) IN
     IF r.res # "ok" THEN r
-    ELSE IF op.unknown THEN r                \* an unknown-size start does not hand anything over by itself (code)
+    ELSE IF op.unknown /\ op.k # "end" THEN r  \* an unknown-size start does not hand anything over by itself (code)
     ELSE Res("ok", MaybeFlush(r.w))
 
 \* a whole call sequence
